@@ -21,6 +21,9 @@ def DataFrame_select_decorators : List String := ["deco.new_from_generator"]
 /-- the signature of dataiter/data_frame.py: DataFrame.select: parameters in order, with the source text of their defaults -/
 def DataFrame_select_signature : List String := ["self", "*colnames"]
 
+/-- the calls of dataiter/data_frame.py: DataFrame.select in the order Python makes them along the source text -/
+def DataFrame_select_call_order : List String := ["self[colname].copy"]
+
 /-- dataiter/data_frame.py: DataFrame.unselect (sha256 of the function source: 4800fa2fa5405077) -/
 def DataFrame_unselect (truth : Term → Bool) : Out :=
   let eff0 : Term := (Term.app "for" [(Term.sym "colname"), (Term.app ".colnames" [(Term.sym "self")]), (Term.app "block" [(Term.app "if" [(Term.app "NotIn" [(Term.sym "colname"), (Term.sym "colnames")]), (Term.app "block" [(Term.app "yield" [(Term.app "tuple" [(Term.sym "colname"), (Term.app ".copy" [(Term.app "getitem" [(Term.sym "self"), (Term.sym "colname")])])])])]), (Term.app "block" [])])])]);
@@ -31,6 +34,9 @@ def DataFrame_unselect_decorators : List String := ["deco.new_from_generator"]
 
 /-- the signature of dataiter/data_frame.py: DataFrame.unselect: parameters in order, with the source text of their defaults -/
 def DataFrame_unselect_signature : List String := ["self", "*colnames"]
+
+/-- the calls of dataiter/data_frame.py: DataFrame.unselect in the order Python makes them along the source text -/
+def DataFrame_unselect_call_order : List String := ["self[colname].copy"]
 
 /-- dataiter/data_frame.py: DataFrame.rename (sha256 of the function source: 1fc6f52d1123139b) -/
 def DataFrame_rename (truth : Term → Bool) : Out :=
@@ -44,6 +50,9 @@ def DataFrame_rename_decorators : List String := ["deco.new_from_generator"]
 
 /-- the signature of dataiter/data_frame.py: DataFrame.rename: parameters in order, with the source text of their defaults -/
 def DataFrame_rename_signature : List String := ["self", "**to_from_pairs"]
+
+/-- the calls of dataiter/data_frame.py: DataFrame.rename in the order Python makes them along the source text -/
+def DataFrame_rename_call_order : List String := ["to_from_pairs.items", "from_to_pairs.get", "self[fm].copy"]
 
 /-- dataiter/data_frame.py: DataFrame.cbind (sha256 of the function source: 575c3a32e09cfb6e) -/
 def DataFrame_cbind (truth : Term → Bool) : Out :=
@@ -59,6 +68,9 @@ def DataFrame_cbind_decorators : List String := ["deco.new_from_generator"]
 /-- the signature of dataiter/data_frame.py: DataFrame.cbind: parameters in order, with the source text of their defaults -/
 def DataFrame_cbind_signature : List String := ["self", "*others"]
 
+/-- the calls of dataiter/data_frame.py: DataFrame.cbind in the order Python makes them along the source text -/
+def DataFrame_cbind_call_order : List String := ["set", "list", "enumerate", "data.items", "found_colnames.add", "self._reconcile_column", "column.copy"]
+
 /-- dataiter/data_frame.py: DataFrame.update (sha256 of the function source: b10bab4f7e928005) -/
 def DataFrame_update (truth : Term → Bool) : Out :=
   let eff0 : Term := (Term.app "for" [(Term.app "tuple" [(Term.sym "colname"), (Term.sym "column")]), (Term.app ".items" [(Term.sym "self")]), (Term.app "block" [(Term.app "if" [(Term.app "In" [(Term.sym "colname"), (Term.sym "other")]), (Term.app "block" [(Term.sym "continue")]), (Term.app "block" [])]), (Term.app "yield" [(Term.app "tuple" [(Term.sym "colname"), (Term.app ".copy" [(Term.sym "column")])])])])]);
@@ -71,5 +83,8 @@ def DataFrame_update_decorators : List String := ["deco.new_from_generator"]
 
 /-- the signature of dataiter/data_frame.py: DataFrame.update: parameters in order, with the source text of their defaults -/
 def DataFrame_update_signature : List String := ["self", "other"]
+
+/-- the calls of dataiter/data_frame.py: DataFrame.update in the order Python makes them along the source text -/
+def DataFrame_update_call_order : List String := ["self.items", "column.copy", "other.items", "self._reconcile_column", "column.copy"]
 
 end DI.Gen
